@@ -156,6 +156,13 @@ def gen_cases(rng, tier, pool):
     # 1. valid encodings
     for v in pool:
         add("valid", v["fam"], v["pbytes"], v["wbytes"], {"time": v["time"]})
+    # 1b. a length prefix announcing far more nodes than the input holds (allocation must follow
+    # the input, not the announcement): 2^k, 2^k - 1 for every k up to 31, with a tiny body
+    for kk in range(4, 32):
+        for nn in (2 ** kk, 2 ** kk - 1, 2 ** 31 - 1):
+            for body in ([], [0, 1, 0, 0, 1], rng.bits(24)):
+                bits = cc.enc_nat(nn) + body
+                add("announced-length", rng.choice(["c", "e"]), cc.pack(bits), [])
     # 2. random byte strings
     for _ in range(400 if quick else 20000):
         n = rng.below(rng.choice([4, 8, 40]))
@@ -344,6 +351,26 @@ def take_triple_or(r, pos, ok_parser):
     return ("err", r[pos:pos + 3]), pos + 3
 
 
+def _initial_alloc_cap():
+    """value.rs caps the up-front allocation for a decoded value at MAX_INITIAL_ALLOC bytes (a constant,
+    hence a bound that does not depend on the input); the allowance is that constant plus a margin"""
+    import re
+    try:
+        txt = open(os.path.join(vplib.REPO, "src", "value.rs")).read()
+        m = re.search(r"const MAX_INITIAL_ALLOC: usize = ([0-9_* ]+);", txt)
+        v = 1
+        for f in m.group(1).split("*"):
+            v *= int(f.strip().replace("_", ""))
+        return v
+    except Exception:
+        return 32 << 20
+
+
+ALLOC_BASE = _initial_alloc_cap() + (16 << 20)   # the library's own constant cap + 16 MiB
+ALLOC_PER_BYTE = 1 << 16                          # 64 KiB per input byte
+PEAKS = []
+
+
 def parse_result(r):
     if r in ("CRASH", "TIMEOUT") or r is None:
         return {"status": r or "CRASH"}
@@ -370,6 +397,7 @@ def parse_result(r):
     d["A"], pos = take_triple_or(r, pos, ok_a)
     d["B"], pos = take_triple_or(r, pos, ok_b)
     d["C"], pos = take_triple_or(r, pos, ok_c)
+    d["peak"] = r[pos] if pos < len(r) else None
     return d
 
 
@@ -420,6 +448,13 @@ def prop_check(c, r):
     if m["family"] == "deep-unify":
         return None
     pb, wb = m["prog"], m["wit"]
+    # allocation relative to the input: generous linear allowance (the decoder builds typed nodes,
+    # roots and a re-encoding; measured maximum on the unchanged tree is far below this line)
+    if d.get("peak") is not None:
+        allowance = ALLOC_BASE + ALLOC_PER_BYTE * (len(pb) + len(wb))
+        PEAKS.append((d["peak"], len(pb) + len(wb)))
+        if d["peak"] > allowance:
+            return ("alloc-unbounded", "decoding a %d-byte input allocated %d bytes (allowance %d)" % (len(pb) + len(wb), d["peak"], allowance))
     jt = _JT[m["fam"]]
     ref = cc.stage_a_ref(pb, jt)
     has_disc = ref[0] != "synt" and any(x[0] == "disc" for x in ref[-1])
@@ -568,6 +603,10 @@ def run(rep, tier, rng):
                             "the F-C07 regression witness; every case through ConstructNode::decode, CommitNode::decode and RedeemNode::decode, debug and "
                             "release builds.  Distinct = distinct (program bytes, witness bytes, family); non-trivial = program of at least 2 bytes")
     rep.coverage["verdicts_by_family (expression/commit/redeem)"] = rule_table(cases, impl)
+    if PEAKS:
+        worst = max(PEAKS, key=lambda x: x[0] - ALLOC_PER_BYTE * x[1])
+        rep.coverage["allocation"] = {"allowance": "%d + %d * input bytes" % (ALLOC_BASE, ALLOC_PER_BYTE), "cases_measured": len(PEAKS),
+                                      "max_peak_bytes": max(p for p, _ in PEAKS), "closest_to_allowance": {"peak": worst[0], "input_bytes": worst[1]}}
     rep.coverage["samples"] = [{"family": c.meta["family"], "args": c.line[:120], "impl": (impl.get(c.cid) or [])[:24] if isinstance(impl.get(c.cid), list) else impl.get(c.cid)}
                                for c in cases[::max(1, len(cases) // 6)][:7]]
     vplib.finish_proof_verdict(rep, pfail)
